@@ -310,3 +310,27 @@ impl Tui {
         self.notification_state.current = Some(warning);
     }
 }
+
+/// Hooks for the external verification harness. Additive only; compiled in
+/// with the (non-default) cargo feature `verif-hooks`.
+#[cfg(feature = "verif-hooks")]
+impl Tui {
+    /// One iteration of the main loop without drawing and pacing:
+    /// `maintain()` followed by `handle_event()`.
+    pub fn verif_step(&mut self) -> AbortEmulation {
+        self.maintain();
+        self.handle_event()
+    }
+    /// The state of the input field.
+    pub fn verif_input(&self) -> &InputState {
+        &self.input_field
+    }
+    /// The currently shown notification, if any.
+    pub fn verif_notification(&self) -> Option<&String> {
+        self.notification_state.current.as_ref()
+    }
+    /// Mutable access to the machine state.
+    pub fn verif_machine_mut(&mut self) -> &mut MachineState {
+        &mut self.machine
+    }
+}
